@@ -135,8 +135,11 @@ func TestVerifC04Streams(t *testing.T) {
 			runtime.GC()
 			// at rest the two hosts hold no stream: wait for background exchanges (identify
 			// push, the previous attempt's remote handler) to finish before taking the baseline
-			if !c04Settle(3*time.Second, func() bool { return c04Stat(rm1).streams == 0 && c04Stat(rm2).streams == 0 }) {
+			if !c04Settle(8*time.Second, func() bool { return c04Stat(rm1).streams == 0 && c04Stat(rm2).streams == 0 }) {
+				// the deltas of this attempt would be disturbed: not judged (a stream left over
+				// by an earlier attempt was reported by that attempt)
 				out.Cover("streams.baseline_not_at_rest")
+				continue
 			}
 			baseG := runtime.NumGoroutine()
 			b1, b2 := c04Stat(rm1), c04Stat(rm2)
